@@ -583,8 +583,9 @@ def d4_10(ctx):
             return Obj(kind="failed-response", request=a[0], raw=a[1], _truth=False, _error=None)
         return UNKNOWN
 
-    def reply(status, chunk, valid, error=None):
-        o = _resp(valid, service_status=status, value_bytes=chunk, error=error, parsed=False)
+    def reply(status, chunk, valid, error=None, prefix=b"\xc4\x00"):
+        # (the reply's raw data is the type prefix followed by the value bytes; only the value bytes count towards the offset)
+        o = _resp(valid, service_status=status, value_bytes=chunk, data=prefix + chunk, error=error, parsed=False)
         return o
 
     def parse_value(call, env, it):
@@ -600,6 +601,7 @@ def d4_10(ctx):
     for label, replies, want_offsets, want in (
         ("three fragments", [reply(INS, b"aaaa", True), reply(INS, b"bbb", True), reply(0, b"cc", True)], [4, 7], ("ok", b"aaaabbbcc")),
         ("single fragment", [reply(0, b"zz", True)], [], ("ok", b"zz")),
+        ("structure data (4-byte type prefix)", [reply(INS, b"aaaa", True, prefix=b"\xa0\x02\xcd\xab"), reply(INS, b"bbbbb", True, prefix=b"\xa0\x02\xcd\xab"), reply(0, b"c", True, prefix=b"\xa0\x02\xcd\xab")], [4, 9], ("ok", b"aaaabbbbbc")),
         ("second fragment fails", [reply(INS, b"aaaa", True), reply(4, b"", False, "Path segment error")], [4], ("failed", "One or more fragment responses failed")),
     ):
         sent, log = [], []
